@@ -19,11 +19,26 @@ fn run_repl() {
         buffer.clear();
         print!(">>> ");
         io::stdout().flush().unwrap();
-        io::stdin().read_line(&mut buffer).unwrap();
+        // stop at the end of the input
+        match io::stdin().read_line(&mut buffer) {
+            Ok(0) | Err(_) => break,
+            Ok(_) => (),
+        }
 
-        // TODO: Error handling here
-        let ast = parse(&buffer).unwrap();
-        let code = compiler.compile_ast(&ast).unwrap();
+        let ast = match parse(&buffer) {
+            Ok(ast) => ast,
+            Err(e) => {
+                eprintln!("{e:?}");
+                continue;
+            }
+        };
+        let code = match compiler.compile_ast(&ast) {
+            Ok(code) => code,
+            Err(e) => {
+                eprintln!("{e:?}");
+                continue;
+            }
+        };
 
         match vm.run(code) {
             Ok(obj) => {
